@@ -51,15 +51,13 @@ type kase struct {
 
 type rec map[string]interface{}
 
-var out *bufio.Writer
-
-func emit(r rec) {
+func (w *world) emit(r rec) {
 	b, err := json.Marshal(r)
 	if err != nil {
 		panic(err)
 	}
-	out.Write(b)
-	out.WriteByte('\n')
+	w.buf.Write(b)
+	w.buf.WriteByte('\n')
 }
 
 // ---------------------------------------------------------------- identifier / element universes
@@ -91,6 +89,7 @@ var elemUniverses = [][]tla.Value{
 }
 
 type world struct {
+	buf      bytes.Buffer // ndjson lines of this case
 	k        kase
 	ids      []tla.Value
 	elems    []tla.Value
@@ -311,7 +310,7 @@ func (w *world) newVal(v resources.CRDTValue, f string, a, b int, st *step, law 
 	func() {
 		defer func() {
 			if p := recover(); p != nil {
-				emit(rec{"e": "panic", "what": "Read", "msg": fmt.Sprint(p)})
+				w.emit(rec{"e": "panic", "what": "Read", "msg": fmt.Sprint(p)})
 				panic(caseAbort{"panic in Read"})
 			}
 		}()
@@ -333,7 +332,7 @@ func (w *world) newVal(v resources.CRDTValue, f string, a, b int, st *step, law 
 	s, x, ok := w.dump(v)
 	r["dok"] = ok
 	r["d"] = rec{"s": s, "x": x}
-	emit(r)
+	w.emit(r)
 	return idx
 }
 
@@ -345,14 +344,14 @@ func (w *world) guard(what string, f func() resources.CRDTValue) resources.CRDTV
 				if ca, isAbort := p.(caseAbort); isAbort {
 					panic(ca)
 				}
-				emit(rec{"e": "panic", "what": what, "msg": fmt.Sprint(p)})
+				w.emit(rec{"e": "panic", "what": what, "msg": fmt.Sprint(p)})
 				panic(caseAbort{"panic in " + what})
 			}
 		}()
 		res = f()
 	}()
 	if res == nil {
-		emit(rec{"e": "panic", "what": what, "msg": "returned nil"})
+		w.emit(rec{"e": "panic", "what": what, "msg": "returned nil"})
 		panic(caseAbort{"nil from " + what})
 	}
 	return res
@@ -386,12 +385,12 @@ func (w *world) gobTrip(a int, law string) int {
 	v := w.guard("gob", func() resources.CRDTValue {
 		b, err := gobBytes(w.vals[a-1])
 		if err != nil {
-			emit(rec{"e": "goberr", "what": "encode", "a": a, "msg": err.Error()})
+			w.emit(rec{"e": "goberr", "what": "encode", "a": a, "msg": err.Error()})
 			panic(caseAbort{"gob encode error"})
 		}
 		d, err := gobValue(b)
 		if err != nil {
-			emit(rec{"e": "goberr", "what": "decode", "a": a, "msg": err.Error()})
+			w.emit(rec{"e": "goberr", "what": "decode", "a": a, "msg": err.Error()})
 			panic(caseAbort{"gob decode error"})
 		}
 		return d
@@ -426,7 +425,7 @@ func (w *world) write(a int, st *step) int {
 				break
 			}
 			if now.Before(w.lastWall) {
-				emit(rec{"e": "clockstep", "msg": "wall clock went backwards"})
+				w.emit(rec{"e": "clockstep", "msg": "wall clock went backwards"})
 				panic(caseAbort{"clock step"})
 			}
 		}
@@ -436,7 +435,7 @@ func (w *world) write(a int, st *step) int {
 	if w.k.Kind == "lww" {
 		after := time.Now().Round(0)
 		if after.Before(w.lastWall) {
-			emit(rec{"e": "clockstep", "msg": "wall clock went backwards"})
+			w.emit(rec{"e": "clockstep", "msg": "wall clock went backwards"})
 			panic(caseAbort{"clock step"})
 		}
 		w.lastWall = after
@@ -453,8 +452,13 @@ func (w *world) write(a int, st *step) int {
 
 // ---------------------------------------------------------------- one case
 
-func runCase(k kase, seed int64) {
+func runCase(k kase, seed int64) []byte {
 	w := &world{k: k, stampID: map[int64]int{}}
+	runCaseIn(w, k, seed)
+	return w.buf.Bytes()
+}
+
+func runCaseIn(w *world, k kase, seed int64) {
 	w.ids = idUniverses[k.Uni%len(idUniverses)][:k.NRep]
 	w.elems = elemUniverses[k.Uni%len(elemUniverses)]
 	if k.NElem < len(w.elems) {
@@ -468,7 +472,7 @@ func runCase(k kase, seed int64) {
 	for i, v := range w.elems {
 		elStr[i] = v.String()
 	}
-	emit(rec{"e": "case", "case": k.Case, "kind": k.Kind, "nrep": k.NRep, "nelem": max(k.NElem, 1), "uni": k.Uni,
+	w.emit(rec{"e": "case", "case": k.Case, "kind": k.Kind, "nrep": k.NRep, "nelem": max(k.NElem, 1), "uni": k.Uni,
 		"ids": idStr, "elems": elStr, "input": k})
 	if k.NElem < 1 {
 		w.k.NElem = 1
@@ -478,7 +482,7 @@ func runCase(k kase, seed int64) {
 			if _, isAbort := p.(caseAbort); isAbort {
 				return
 			}
-			emit(rec{"e": "panic", "what": "driver", "msg": fmt.Sprint(p)})
+			w.emit(rec{"e": "panic", "what": "driver", "msg": fmt.Sprint(p)})
 		}
 	}()
 	rng := rand.New(rand.NewSource(seed))
@@ -493,7 +497,7 @@ func runCase(k kase, seed int64) {
 	for s := 1; s <= k.NSlot; s++ {
 		b, err := gobBytes(w.vals[cur[1]-1])
 		if err != nil {
-			emit(rec{"e": "goberr", "what": "encode", "a": cur[1], "msg": err.Error()})
+			w.emit(rec{"e": "goberr", "what": "encode", "a": cur[1], "msg": err.Error()})
 			return
 		}
 		slotBytes[s], slotSrc[s] = b, cur[1]
@@ -509,7 +513,7 @@ func runCase(k kase, seed int64) {
 		case "snap":
 			b, err := gobBytes(w.vals[cur[st.R]-1])
 			if err != nil {
-				emit(rec{"e": "goberr", "what": "encode", "a": cur[st.R], "msg": err.Error()})
+				w.emit(rec{"e": "goberr", "what": "encode", "a": cur[st.R], "msg": err.Error()})
 				return
 			}
 			slotBytes[st.Q], slotSrc[st.Q] = b, cur[st.R]
@@ -520,7 +524,7 @@ func runCase(k kase, seed int64) {
 			v := w.guard("gob", func() resources.CRDTValue {
 				d, err := gobValue(b)
 				if err != nil {
-					emit(rec{"e": "goberr", "what": "decode", "a": src, "msg": err.Error()})
+					w.emit(rec{"e": "goberr", "what": "decode", "a": src, "msg": err.Error()})
 					panic(caseAbort{"gob decode error"})
 				}
 				return d
@@ -594,6 +598,7 @@ func main() {
 	cases := flag.String("cases", "", "ndjson file of cases")
 	outp := flag.String("out", "", "ndjson trace output")
 	seed := flag.Int64("seed", 1, "seed for the sampled law probes")
+	par := flag.Int("par", 8, "cases run concurrently (each case is sequential)")
 	flag.Parse()
 	fh, err := os.Open(*cases)
 	if err != nil {
@@ -606,10 +611,10 @@ func main() {
 		fmt.Fprintln(os.Stderr, err)
 		os.Exit(2)
 	}
-	out = bufio.NewWriterSize(of, 1<<20)
+	out := bufio.NewWriterSize(of, 1<<20)
 	sc := bufio.NewScanner(fh)
 	sc.Buffer(make([]byte, 1<<20), 1<<26)
-	n := 0
+	var ks []kase
 	for sc.Scan() {
 		line := strings.TrimSpace(sc.Text())
 		if line == "" {
@@ -624,17 +629,36 @@ func main() {
 			fmt.Fprintln(os.Stderr, "case out of the driver's universe:", k.Case)
 			os.Exit(2)
 		}
-		n++
-		// every case runs under a watchdog; a hang is reported, never judged here
-		done := make(chan struct{})
-		go func() {
-			defer close(done)
-			runCase(k, *seed+int64(n))
-		}()
+		ks = append(ks, k)
+	}
+	// cases run concurrently, each one sequentially; output is written in input order.
+	// A case that does not finish is reported as a hang (never judged here) by the watchdog.
+	results := make([]chan []byte, len(ks))
+	for i := range results {
+		results[i] = make(chan []byte, 1)
+	}
+	sem := make(chan struct{}, max(*par, 1))
+	go func() {
+		for i := range ks {
+			sem <- struct{}{}
+			go func(i int) {
+				defer func() { <-sem }()
+				results[i] <- runCase(ks[i], *seed+int64(i)+1)
+			}(i)
+		}
+	}()
+	for i := range ks {
 		select {
-		case <-done:
-		case <-time.After(120 * time.Second):
-			emit(rec{"e": "hang", "case": k.Case})
+		case b := <-results[i]:
+			out.Write(b)
+		case <-time.After(600 * time.Second):
+			b, _ := json.Marshal(rec{"e": "case", "case": ks[i].Case, "kind": ks[i].Kind, "nrep": ks[i].NRep, "nelem": max(ks[i].NElem, 1),
+				"ids": []string{}, "elems": []string{}, "input": ks[i]})
+			out.Write(b)
+			out.WriteByte('\n')
+			b, _ = json.Marshal(rec{"e": "hang", "case": ks[i].Case})
+			out.Write(b)
+			out.WriteByte('\n')
 			out.Flush()
 			of.Close()
 			os.Exit(3)
@@ -642,5 +666,5 @@ func main() {
 	}
 	out.Flush()
 	of.Close()
-	fmt.Printf("cases=%d\n", n)
+	fmt.Printf("cases=%d\n", len(ks))
 }
